@@ -213,6 +213,7 @@ func WorkerMain(t *testing.T, curFile string) {
 			}
 		}
 		if err != nil {
+			fmt.Fprintf(os.Stderr, "worker: stdin closed (%v), leaving\n", err)
 			return
 		}
 	}
@@ -382,7 +383,9 @@ func (p *Pool) Run() {
 					}
 					var r JobResult
 					if e := json.Unmarshal(line, &r); e != nil {
-						fmt.Fprintf(os.Stderr, "pool: bad result: %v\n", e)
+						pr.stdin.Close()
+						pr.cmd.Wait()
+						fmt.Fprintf(os.Stderr, "pool: bad result: %v\nline: %.300s\nstderr: %s\n", e, string(line), pr.stderr.String())
 						os.Exit(2)
 					}
 					if r.Tainted { // worker retires after this job (too many leaked goroutines)
